@@ -27,11 +27,11 @@ TARGETS["leftright"] = dict(src="scenarios/leftright.cpp", defs=[])
 TARGETS["slots"] = dict(src="scenarios/slots.cpp", defs=[])
 for n in range(16):
     TARGETS["algebra.R%d" % n] = dict(src="scenarios/slots.cpp", defs=["-DXV_RECL=%d" % n])
-TARGETS["markedptr"] = dict(src="scenarios/markedptr.cpp", defs=[])
+TARGETS["markedptr"] = dict(src="scenarios/markedptr.cpp", defs=[], standalone=True)
 
 SIMPLE_FAMILIES = {"deque": ["C12"], "seqlock": ["C14"], "leftright": ["C13"], "slots": ["C18"]}
 GENERIC_KINDS = {"use-after-free", "wild-access", "double-free", "bad-free", "crash", "hang", "deadlock", "watchdog"}
-RACE_KINDS = {"race", "race-free", "race-free-vs-atomic"}
+RACE_KINDS = {"race", "race-free", "race-free-vs-atomic", "tsan-report"}
 
 
 def queue_lin_prop(config):
@@ -147,7 +147,7 @@ def plan_queue_lin(prop, pattern, recls_quick, recls_thorough, norecl, rule, gat
         if distinct < 100:
             msgs.append("only %d distinct non-trivial histories" % distinct)
         for pc, v in per_config.items():
-            if v["execs"] and v["nontrivial"] == 0:
+            if v["execs"] and v["nontrivial"] == 0 and "/native-" not in pc:  # native slices: overlap is up to the OS scheduler
                 msgs.append("config %s produced no overlapping history" % pc)
         if gate_counter:
             for c in gate_counter:
@@ -565,6 +565,65 @@ def plan_c18():
 
 
 PLANS["C18"] = plan_c18()
+
+# ---------------------------------------------------------------------------------------------------- native sanitizer slices
+# The same scenario sources built with the stock sanitizers (variants asan = ASan+UBSan, tsan = ThreadSanitizer on the library's
+# TSan build variant) and xrt/native.cpp instead of the controlled runtime: real parallel threads, the same histories and oracles,
+# heap / UB / race verdicts by the vendor runtimes. Configurations with a known finding that would kill the process are left out
+# (hazard_pointer guard hand-over: reclaimers 1 and 8; vyukov_hash_map with hazard_eras; nikolaev_bounded_queue capacity 1).
+_NR = [0, 2, 3, 4, 5, 7]
+NATIVE = {
+    "C01": [("reclaim", _NR, r"^proto_")],
+    "C02": [("reclaim", _NR, r"^proto_")],
+    "C17": [("reclaim", _NR, r"^gens_")],
+    "C04": [("queues", _NR, r"^(ms|ram|nik)_")],
+    "C05": [("queues.norecl", None, r"^(vyu_|nib_c[2-9])")],
+    "C06": [("queues", [2, 3, 5, 7], r"^kir_"), ("queues.norecl", None, r"^kib_")],
+    "C07": [("queues", [0, 2, 5], r"."), ("queues.norecl", None, r"^(vyu_|nib_c[2-9]|kib_)")],
+    "C08": [("harris", _NR, r"^lin_")],
+    "C09": [("harris", _NR, r"^trav_")],
+    "C10": [("vyukov", [3, 4, 5, 6, 7], r"^(lin|seq)_")],
+    "C11": [("vyukov", [3, 4, 5, 6, 7], r"^(iter|seq)_")],
+    "C12": [("deque", None, r".")],
+    "C13": [("leftright", None, r".")],
+    "C14": [("seqlock", None, r".")],
+    "C15": [("algebra", _NR, r"^run_alg")],
+    "C18": [("slots", None, r"^run_he_")],
+    "C03": [("queues", [2, 5], r"."), ("queues.norecl", None, r"^(vyu_|nib_c[2-9]|kib_)"), ("reclaim", [2, 5], r"^proto_"), ("harris", [5], r"."),
+            ("vyukov", [5], r"^(lin|iter)_"), ("deque", None, r"."), ("seqlock", None, r"."), ("leftright", None, r".")],
+}
+
+
+def _native_targets(prop):
+    out = []
+    for fam, recls, _pat in NATIVE.get(prop, []):
+        names = [fam] if recls is None else ["%s.R%d" % (fam, r) for r in recls]
+        for n in names:
+            for v in (("tsan",) if prop == "C03" else ("asan", "tsan")):
+                out.append((n, v))
+    return out
+
+
+def native_targets(prop, tier):
+    return _native_targets(prop)
+
+
+def native_jobs(prop, tier, seed, list_configs):
+    jobs = []
+    execs = 300 if tier == "quick" else 4000
+    for fam, recls, pat in NATIVE.get(prop, []):
+        names = [fam] if recls is None else ["%s.R%d" % (fam, r) for r in recls]
+        for n in names:
+            for v in (("tsan",) if prop == "C03" else ("asan", "tsan")):
+                cfgs = cfgs_matching(list_configs, n, v, pat)
+                if not cfgs:
+                    continue
+                env = {"ASAN_OPTIONS": "detect_leaks=0:abort_on_error=0", "UBSAN_OPTIONS": "print_stacktrace=1",
+                       "TSAN_OPTIONS": "halt_on_error=1:report_signal_unsafe=0:second_deadlock_stack=1"}
+                jobs.append(dict(target=n, variant=v, timeout=1800, env=env,
+                                 args=["--cfg", ",".join(cfgs), "--mode", "sc", "--seed", str(seed + 1000), "--execs", str(execs)]))
+    return jobs
+
 
 # ---------------------------------------------------------------------------------------------------- manifest metadata
 NOT_YET = {}
